@@ -51,7 +51,7 @@ Definition cmd_of (cmds : list logop) (c : N) : logop := nth (N.to_nat c) cmds L
 Definition nn := N.to_nat.
 Definition model_step (cmds : list logop) (cl : cluster) (e : oevent) : cluster * bool :=
   match e with
-  | OCommit c => (step cl (MCommit (cmd_of cmds c)), true)
+  | OCommit c => (step cl (MCommit (cmd_of cmds c)), accepts (cmd_of cmds c))   (* LogPin lets no unserialisable pin into the log *)
   | OApply n j =>
       let cl' := step cl (MApply (nn n)) in
       (cl', Nat.eqb (applied (getn (nn n) cl)) (nn j) && negb (crashed (getn (nn n) cl')) && Nat.ltb (nn j) (length (log cl)))
@@ -65,7 +65,8 @@ Definition model_step (cmds : list logop) (cl : cluster) (e : oevent) : cluster 
       (step cl (MPersist (nn n)), match pending (getn (nn n) cl) with Some _ => true | None => false end)
   | ORestore n src k lbl =>
       (step cl (MRestore (nn n) (nn src) (nn k)),
-       match nth_error (snaps (getn (nn src) cl)) (nn k) with Some s => Nat.eqb (fst s) (nn lbl) | None => false end)
+       match nth_error (snaps (getn (nn src) cl)) (nn k) with Some s => Nat.eqb (fst s) (nn lbl) | None => false end
+       && ev_forward cl (MRestore (nn n) (nn src) (nn k)))          (* the assumption about hashicorp/raft holds on this trace *)
   | ORestart n => (step cl (MRestart (nn n)), true)
   | OAck _ _ => (cl, true)
   | OObs n o =>
@@ -121,9 +122,10 @@ Definition spec_step (cmds : list logop) (lg : list N) (sn : list snode) (e : oe
   | ORestart n => (lg, supd (nn n) (fun s => mksnode 0 (s_hist s) None (s_labels s)) sn, true)
   | OAck c n =>                                                                         (* acknowledged: in the sequence and visible on the committer *)
       (lg, sn, existsb (fun j => nth j lg 0 =? c) (seq 0 (Nat.min (s_applied (sgetn (nn n) sn)) (length lg))))
-  | OObs n o =>
-      (lg, sn, match o with
-               | Some l => pins_eqb (map snd (replay (firstn (s_applied (sgetn (nn n) sn)) ops))) l
+  | OObs n o =>                                                                         (* some prefix, not shorter than what the node was given; *)
+      (lg, sn, match o with                                                             (* caught up (applied = all) => the whole sequence *)
+               | Some l => let a := s_applied (sgetn (nn n) sn) in
+                           existsb (fun m => pins_eqb (map snd (replay (firstn m ops))) l) (seq a (S (length lg - a)))
                | None => false end)
   | OTrk n cs =>
       (lg, sn, multiset_eqb (map proj_call (expected_calls ops (s_hist (sgetn (nn n) sn)))) (map proj_call cs))
@@ -153,21 +155,22 @@ Definition spec_okb (k : N) (cmds : list logop) (es : list oevent) : bool :=
 (* S19: some submitted pin carries origins (undecodable from msgpack) *)
 Definition is_S19 (cmds : list logop) : bool :=
   existsb (fun op => match pin_of op with Some p => negb (wire_ok p) | None => false end) cmds.
-(* a pin name or metadata string that is not valid UTF-8: ProtoMarshal fails inside FSM.Apply after the op was acknowledged *)
-Definition is_badutf (cmds : list logop) : bool :=
-  existsb (fun op => match op with LPin p => pin_badutf p | _ => false end) cmds.
-(* an entry was applied on a node between FSM.Snapshot and Persist of that node *)
-Fixpoint is_persist_race (pend : list N) (es : list oevent) : bool :=
+(* S23: some replica restored a snapshot that was persisted after entries had been applied past its label *)
+Fixpoint late_restore (pend : list (N * bool)) (cnt : list (N * N)) (late : list (N * N)) (es : list oevent) : bool :=
   match es with
   | [] => false
-  | OSnapReq n true :: r => is_persist_race (n :: pend) r
-  | OPersist n :: r => is_persist_race (remove1 n pend) r
-  | ORestart n :: r => is_persist_race (remove1 n pend) r
-  | OApply n _ :: r => memN n pend || is_persist_race pend r
-  | _ :: r => is_persist_race pend r
+  | OSnapReq n true :: r => late_restore (aput n false pend) cnt late r
+  | OApply n _ :: r => late_restore (match aget n pend with Some _ => aput n true pend | None => pend end) cnt late r
+  | OPersist n :: r =>
+      let k := match aget n cnt with Some x => x | None => 0 end in
+      late_restore (adel n pend) (aput n (k + 1) cnt)
+                   (match aget n pend with Some true => (n, k) :: late | _ => late end) r
+  | ORestart n :: r => late_restore (adel n pend) cnt late r
+  | ORestore _ src k _ :: r => existsb (fun x => (fst x =? src) && (snd x =? k)) late || late_restore pend cnt late r
+  | _ :: r => late_restore pend cnt late r
   end.
 Definition tag_of (cmds : list logop) (es : list oevent) : N :=
-  if is_S19 cmds then 1 else if is_badutf cmds then 2 else if is_persist_race [] es then 3 else 0.
+  if is_S19 cmds then 1 else if late_restore [] [] [] es then 3 else 0.
 
 Definition case := (N * (N * list logop * list oevent))%type.
 Definition check_case (c : case) : list (N * N * N) :=
